@@ -267,8 +267,11 @@ class Model:
         from .alpha import rename_classes_back
 
         self.classes_renamed = rename_classes_back(self, CLASSES)
+        from .alpha import move_functions_back
+
+        self.functions_moved = move_functions_back(self, FUNCTIONS, SIGNATURES, BAGS)
         self.functions_renamed = rename_functions_back(self, FUNCTIONS, SIGNATURES, BAGS)
-        if self.functions_renamed or self.classes_renamed:
+        if self.functions_renamed or self.classes_renamed or self.functions_moved:
             self.changed_functions = {q for q, f_ in self.functions.items() if not f_.module.short.startswith("_typeguard")
                                       and HASHES.get(q) != hashlib.sha1(ast.dump(f_.node).encode()).hexdigest()[:12]}
         try:
